@@ -437,7 +437,7 @@ def write(r, nodes, offsets, pos, in_raw=False):
             s = f"<!--{nd[1]}-->"
             parts.append(s); pos[0] += len(s)
         elif nd[0] == "cd":
-            s = f"<![CDATA[{nd[1]}]]>"
+            s = f"<![{r.choice(['CDATA', 'CDATA', 'cdata', 'CData'])}[{nd[1]}]]>"       # the keyword's case is the writer's choice
             parts.append(s); pos[0] += len(s)
         elif nd[0] == "pi":
             s = f"<?{nd[1]}>"
@@ -527,7 +527,9 @@ SOUP_TOKENS = ["<", ">", "</", "/>", "<a", "<b", "<br", "<br>", "<br/>", "</br>"
                "</script>", "<textarea>", "x", " ", "\n", "=", "\"", "'", "&", "&#", "&#x", "&amp;", "&lt", "&#65;", "&#150;", "&#x110000;",
                "&#0;", "&#xD800;", ";", "<!--", "-->", "--", "<![CDATA[", "]]>", "<!DOCTYPE html>", "<!doctype", "<!x>", "<?", "?>", "<![if x]>",
                "id", "k=v", "k='v'", "k=\"v\" k=w", "é", "&eacute;", "&notit;", "&nosuch;", "<img src=x>", "<hr/>", "<input", "</input>",
-               "<rt>", "<style>", "</style>", "</", "<a/>", "<A HREF=X>", "\r\n", "\x00"]
+               "<rt>", "<style>", "</style>", "</", "<a/>", "<A HREF=X>", "\r\n", "\x00",
+               # marked sections whose keyword is not upper case (the tokenizer reports them through the same callback)
+               "<![cdata[", "<![CData[x]]>", "<![cdata[a<b]]>", "<![Cdata[]]>", "<![CDATA [x]]>", "<![ CDATA[x]]>"]
 
 
 def _cp1252_ok(n):
@@ -606,7 +608,8 @@ def run(ctx: Ctx):
     grid = []
     for dup in ("replace", "ignore", "acc"):
         for void in (VOID_DEFAULT(), "*", ["a", "br"], []):
-            for cont, pre in ((CONT, PRES), ({}, []), ({"b": 1, "pre": 6}, ["a"])):
+            # the last one has a name in BOTH tables (the stock sets are disjoint): both context stacks are popped when it closes
+            for cont, pre in ((CONT, PRES), ({}, []), ({"b": 1, "pre": 6}, ["a"]), ({"pre": 6, "b": 9, "script": 6}, ["pre", "b"])):
                 for ln in (1, 0):
                     grid.append({"dup": dup, "void": void, "cont": cont, "pre": pre, "lines": ln})
     for i in range(ctx.n(1500, 20000)):
